@@ -186,6 +186,77 @@ Proof.
   apply (f_equal (@length nat)) in Hs. repeat (rewrite app_length in Hs; simpl in Hs). lia.
 Qed.
 
+Definition unreaped_of (k : nat) (popped : list nat) : list nat :=
+  filter (fun w => negb (memb w popped)) (seq 0 k).
+
+Lemma unreaped_of_nil k : unreaped_of k [] = seq 0 k.
+Proof. unfold unreaped_of. induction (seq 0 k) as [|x l IH]; simpl; [reflexivity | f_equal; exact IH]. Qed.
+
+Lemma unreaped_of_snoc k l : unreaped_of (S k) l = unreaped_of k l ++ (if memb k l then [] else [k]).
+Proof.
+  unfold unreaped_of. rewrite seq_S, filter_app. simpl. destruct (memb k l); reflexivity.
+Qed.
+
+Lemma nth_error_snoc {A} (l : list A) x w y : nth_error (l ++ [x]) w = Some y ->
+  (w < length l /\ nth_error l w = Some y) \/ (w = length l /\ y = x).
+Proof.
+  intro H. destruct (Nat.lt_ge_cases w (length l)) as [Hlt|Hge].
+  - rewrite nth_error_app1 in H by exact Hlt. left; auto.
+  - rewrite nth_error_app2 in H by exact Hge. destruct (w - length l) as [|d] eqn:E.
+    + simpl in H. injection H as <-. right. split; [lia | reflexivity].
+    + simpl in H. destruct d; discriminate.
+Qed.
+
+Lemma fw_lt_nil k l : Forall (fun q => qowner q < k) l -> fw k l = [].
+Proof.
+  induction 1 as [|q l Hq Hl IH]; simpl; [reflexivity|].
+  destruct (qowner q =? k) eqn:E; [apply Nat.eqb_eq in E; lia | exact IH].
+Qed.
+
+Lemma memb_app x a b : memb x (a ++ b) = memb x a || memb x b.
+Proof. unfold memb. apply existsb_app. Qed.
+
+Lemma unreaped_remove k l w : remove_nat w (unreaped_of k l) = unreaped_of k (l ++ [w]).
+Proof.
+  unfold remove_nat, unreaped_of. induction (seq 0 k) as [|x r IH]; simpl; [reflexivity|].
+  rewrite memb_app. simpl. rewrite orb_false_r.
+  destruct (memb x l); simpl; [exact IH|].
+  rewrite (Nat.eqb_sym x w). destruct (w =? x); simpl; [exact IH | f_equal; exact IH].
+Qed.
+
+Lemma unreaped_nil_all k l : unreaped_of k l = [] -> forall v, v < k -> memb v l = true.
+Proof.
+  unfold unreaped_of. intros H v Hv.
+  assert (Hin : In v (seq 0 k)) by (apply in_seq; lia).
+  destruct (memb v l) eqn:E; [reflexivity|]. exfalso.
+  assert (In v (filter (fun w => negb (memb w l)) (seq 0 k))) by (apply filter_In; rewrite E; auto).
+  rewrite H in H0. contradiction.
+Qed.
+
+Lemma stopsq_in v l : memb v (stopsq l) = true -> In (QStop v) l.
+Proof.
+  induction l as [|q l IH]; simpl; [discriminate|].
+  destruct q; simpl; try (intro H; right; apply IH; exact H).
+  destruct (v =? w) eqn:E; simpl.
+  - apply Nat.eqb_eq in E; subst. intros _. left; reflexivity.
+  - intro H. right. apply IH. exact H.
+Qed.
+
+(* ---- somebody can always move ---- *)
+Lemma stopsq_memb v l : In (QStop v) l -> memb v (stopsq l) = true.
+Proof.
+  induction l as [|q l IH]; simpl; [contradiction|]. intros [->|H].
+  - simpl. rewrite Nat.eqb_refl. reflexivity.
+  - destruct q; simpl; try (apply IH; exact H). rewrite (IH H). apply orb_true_r.
+Qed.
+
+Lemma forallb_false_nth {A} (p : A -> bool) l : forallb p l = false -> exists w x, nth_error l w = Some x /\ p x = false.
+Proof.
+  induction l as [|a l IH]; simpl; [discriminate|]. destruct (p a) eqn:E; simpl.
+  - intro H. destruct (IH H) as (w & x & Hw & Hx). exists (S w), x. auto.
+  - intros _. exists 0, a. auto.
+Qed.
+
 Section Stream.
   Variable i : sinput.
   Let n := length (si_suites i).
@@ -194,8 +265,6 @@ Section Stream.
 
   Definition pend_status (c : sconf) : list qitem := match s_main c with SMStatus q => [q] | _ => [] end.
   Definition pend_join (c : sconf) : list nat := match s_main c with SMJoin w => [w] | _ => [] end.
-  Definition unreaped_of (k : nat) (popped : list nat) : list nat :=
-    filter (fun w => negb (memb w popped)) (seq 0 k).
   Definition raise_expected (tr : list (tid * cev)) : bool :=
     mt_raises n (si_mt_raise i) || has_intr tr || status_raised tr.
 
@@ -238,13 +307,7 @@ Section Stream.
   Ltac rd := unfold slog; rewrite ?putsq_snoc, ?gotten_snoc, ?spawns_snoc, ?joins_snoc, ?delivered_snoc,
                ?has_intr_snoc, ?status_raised_snoc, ?forallb_snoc, ?main_stops_snoc; simpl; rewrite ?app_nil_r, ?orb_false_r.
 
-  Lemma unreaped_of_nil k : unreaped_of k [] = seq 0 k.
-  Proof. unfold unreaped_of. induction (seq 0 k) as [|x l IH]; simpl; [reflexivity | f_equal; exact IH]. Qed.
 
-  Lemma unreaped_of_snoc k l : unreaped_of (S k) l = unreaped_of k l ++ (if memb k l then [] else [k]).
-  Proof.
-    unfold unreaped_of. rewrite seq_S, filter_app. simpl. destruct (memb k l); reflexivity.
-  Qed.
 
   (* what is known right after k workers have been started and nothing else has happened in main *)
   Lemma after_spawn_inv c k :
@@ -328,15 +391,6 @@ Section Stream.
     intros w todo H. destruct w; discriminate.
   Qed.
 
-  Lemma nth_error_snoc {A} (l : list A) x w y : nth_error (l ++ [x]) w = Some y ->
-    (w < length l /\ nth_error l w = Some y) \/ (w = length l /\ y = x).
-  Proof.
-    intro H. destruct (Nat.lt_ge_cases w (length l)) as [Hlt|Hge].
-    - rewrite nth_error_app1 in H by exact Hlt. left; auto.
-    - rewrite nth_error_app2 in H by exact Hge. destruct (w - length l) as [|d] eqn:E.
-      + simpl in H. injection H as <-. right. split; [lia | reflexivity].
-      + simpl in H. destruct d; discriminate.
-  Qed.
 
   Lemma worker_put_owner c w q todo : SInv c -> nth_error (s_workers c) w = Some (q :: todo) ->
     qowner q = w /\ w < length (s_workers c).
@@ -375,40 +429,10 @@ Section Stream.
     - destruct (s_main c); rd; exact Hrun.
   Qed.
 
-  Lemma fw_lt_nil k l : Forall (fun q => qowner q < k) l -> fw k l = [].
-  Proof.
-    induction 1 as [|q l Hq Hl IH]; simpl; [reflexivity|].
-    destruct (qowner q =? k) eqn:E; [apply Nat.eqb_eq in E; lia | exact IH].
-  Qed.
 
-  Lemma memb_app x a b : memb x (a ++ b) = memb x a || memb x b.
-  Proof. unfold memb. apply existsb_app. Qed.
 
-  Lemma unreaped_remove k l w : remove_nat w (unreaped_of k l) = unreaped_of k (l ++ [w]).
-  Proof.
-    unfold remove_nat, unreaped_of. induction (seq 0 k) as [|x r IH]; simpl; [reflexivity|].
-    rewrite memb_app. simpl. rewrite orb_false_r.
-    destruct (memb x l); simpl; [exact IH|].
-    rewrite (Nat.eqb_sym x w). destruct (w =? x); simpl; [exact IH | f_equal; exact IH].
-  Qed.
 
-  Lemma unreaped_nil_all k l : unreaped_of k l = [] -> forall v, v < k -> memb v l = true.
-  Proof.
-    unfold unreaped_of. intros H v Hv.
-    assert (Hin : In v (seq 0 k)) by (apply in_seq; lia).
-    destruct (memb v l) eqn:E; [reflexivity|]. exfalso.
-    assert (In v (filter (fun w => negb (memb w l)) (seq 0 k))) by (apply filter_In; rewrite E; auto).
-    rewrite H in H0. contradiction.
-  Qed.
 
-  Lemma stopsq_in v l : memb v (stopsq l) = true -> In (QStop v) l.
-  Proof.
-    induction l as [|q l IH]; simpl; [discriminate|].
-    destruct q; simpl; try (intro H; right; apply IH; exact H).
-    destruct (v =? w) eqn:E; simpl.
-    - apply Nat.eqb_eq in E; subst. intros _. left; reflexivity.
-    - intro H. right. apply IH. exact H.
-  Qed.
 
   (* a worker whose stopTestRun has been dequeued has nothing left to put *)
   Lemma popped_done c v todo : SInv c -> In (QStop v) (gotten (s_log c)) -> nth_error (s_workers c) v = Some todo -> todo = [].
@@ -668,20 +692,7 @@ Section Stream.
     cbn [s_queue s_workers]. unfold sum_from, sfuel. simpl. lia.
   Qed.
 
-  (* ---- somebody can always move ---- *)
-  Lemma stopsq_memb v l : In (QStop v) l -> memb v (stopsq l) = true.
-  Proof.
-    induction l as [|q l IH]; simpl; [contradiction|]. intros [->|H].
-    - simpl. rewrite Nat.eqb_refl. reflexivity.
-    - destruct q; simpl; try (apply IH; exact H). rewrite (IH H). apply orb_true_r.
-  Qed.
 
-  Lemma forallb_false_nth {A} (p : A -> bool) l : forallb p l = false -> exists w x, nth_error l w = Some x /\ p x = false.
-  Proof.
-    induction l as [|a l IH]; simpl; [discriminate|]. destruct (p a) eqn:E; simpl.
-    - intro H. destruct (IH H) as (w & x & Hw & Hx). exists (S w), x. auto.
-    - intros _. exists 0, a. auto.
-  Qed.
 
   Lemma slive c : SInv c -> sall_done c = false -> exists t, t < snthr c /\ sstep i c t <> None.
   Proof.
@@ -786,7 +797,7 @@ Proof.
     rewrite Hdl, <- Hsplit. rewrite (is_prefix_app _ ev3_eqb_refl). simpl.
     destruct (s_raised c) eqn:Er; [reflexivity|]. simpl.
     destruct (Hnr eq_refl) as [_ Hun].
-    assert (Hm : memb w (joins (s_log c)) = true) by (apply (unreaped_nil_all _ _ Hun); exact HwKlt).
+    assert (Hm : memb w (joins (s_log c)) = true) by (eapply unreaped_nil_all; [exact Hun | exact HwKlt]).
     rewrite Hjo in Hm. apply stopsq_in in Hm.
     assert (Hq : fw w (s_queue c) = []).
     { apply (stop_is_last w (si_base i) s (fw w (gotten (s_log c)))).
